@@ -119,6 +119,24 @@ func genExchange(t *core.Tape, maxMsgs int, small, oversize bool) *Scenario {
 		p.KeepReceiving = true
 		sc.Notes["oversize_midstream"]++
 	}
+	if oversize && p.Kind == KUnary && c.Proto == PConnect && t.Bool(1, 2, "limit.at.body.size") {
+		// a read limit of exactly the body size, one less or one more, on the
+		// handler (request) or on the client (response): the verdict must not
+		// depend on whether EOF arrives with the last byte
+		codec := "proto"
+		if c.JSON {
+			codec = "json"
+		}
+		delta := t.Choose(3, "limit.delta") - 1
+		if t.Bool(1, 2, "limit.on.client") {
+			if n := len(ref.EncodeBytesValue(codec, p.RespMsgs[0])) + delta; n > 0 {
+				sc.Clients[0].ReadMax = n
+			}
+		} else if n := len(ref.EncodeBytesValue(codec, p.ReqMsgs[0])) + delta; n > 0 {
+			sc.Handlers[0].ReadMax = n
+		}
+		sc.Notes["limit_at_body_size"]++
+	}
 	if t.Bool(1, 4, "fail") {
 		p.HErr = genErrPlan(t, sc.Notes, p.bin)
 		if small {
@@ -268,7 +286,7 @@ func record(t *core.Tape, sc *Scenario, r *RunResult) *recorded {
 		respHdr: ex.RespHeader.Clone(), respBody: ex.Down.Bytes(), trailer: ex.Trailer.Clone(), writes: ex.Writes,
 		client: clientOutcome(o), handler: handlerOutcome(o)}
 	// sanity: the baseline is a fault-free exchange and must itself be right
-	if o.Plan.HErr == nil && o.Final != nil {
+	if o.Plan.HErr == nil && o.Final != nil && sc.Handlers[0].ReadMax == 0 && sc.Clients[0].ReadMax == 0 {
 		r.Violations = append(r.Violations, Violation{Class: "C0X/baseline-failed", Msg: fmt.Sprintf("fault-free baseline exchange failed: %v", o.Final)})
 		return nil
 	}
